@@ -296,6 +296,8 @@ mod cliflags {
 			w("xdg/git/ignore", "by_vcs_global\n");
 			w("xdg/watchexec/ignore", "by_app_global\n");
 			w("explicit_ignores", "by_cli_ignore_file\n");
+			// a file that is watched explicitly (-w FILE): it is let through whatever the ignores and filters say
+			w("proj/by_vcs_project", "x\n");
 			w("explicit_filters", "*.keep\n");
 			for (k, _) in std::env::vars_os() {
 				let ks = k.to_string_lossy().to_string();
@@ -326,6 +328,10 @@ mod cliflags {
 		let base = BASE.get().unwrap();
 		let proj = base.join("proj");
 		let mut argv: Vec<OsString> = vec!["watchexec".into(), "--project-origin".into(), proj.clone().into(), "-w".into(), proj.clone().into()];
+		if case["watchfile"].as_bool().unwrap_or(false) {
+			argv.push("-w".into());
+			argv.push(proj.join("by_vcs_project").into());
+		}
 		for f in case["flags"].as_array().unwrap() {
 			argv.push(format!("--{}", f.as_str().unwrap()).into());
 		}
